@@ -328,6 +328,9 @@ fn raw_op<K: KeyT, V: ValT, E: OnEvictCallback, S: BuildHasher>(c: &mut RawLRU<K
         Op::IterW(_, fam, n) => {
             let n = n as usize;
             let hit = match fam {
+                IterFam::IterMut if n >= 100 => crate::iters::by_key(c.iter_mut(), n),
+                IterFam::IterLruMut if n >= 100 => crate::iters::by_key(c.iter_lru_mut(), n),
+                IterFam::MutIntoIter if n >= 100 => crate::iters::by_key(c.into_iter(), n),
                 IterFam::IterMut => c.iter_mut().nth(n).map(|(_, v)| v.flip()).is_some(),
                 IterFam::IterLruMut => c.iter_lru_mut().nth(n).map(|(_, v)| v.flip()).is_some(),
                 IterFam::ValuesMut => c.values_mut().nth(n).map(|v| v.flip()).is_some(),
@@ -567,6 +570,22 @@ impl<K: KeyT, V: ValT, H: HasherSel> Subject for SlruSubj<K, V, H> {
                 self.0 = c2;
                 Ret::Unit
             }
+            Op::CloneFromReplace => {
+                // destination: other segment sizes, already holding entries in both segments
+                let cfg2 = Cfg::base(Kind::Slru, &[self.0.protected_cap() + 1, self.0.probationary_cap() + 2], 8);
+                match Self::build(&cfg2) {
+                    Ok(mut dst) => {
+                        let mut o = Vec::new();
+                        dst.apply(Op::Put(7, 0), &mut o);
+                        dst.apply(Op::Get(7), &mut o);
+                        dst.apply(Op::Put(6, 0), &mut o);
+                        dst.0.clone_from(&self.0);
+                        *self = dst;
+                        Ret::Unit
+                    }
+                    Err(_) => Ret::NotApplicable,
+                }
+            }
             _ => Ret::NotApplicable,
         }
     }
@@ -776,6 +795,23 @@ impl<K: KeyT, V: ValT> Subject for WtlfuSubj<K, V> {
                 let c2 = self.0.clone();
                 self.0 = c2;
                 Ret::Unit
+            }
+            Op::CloneFromReplace => {
+                let main = self.0.verif_main();
+                let mut cfg2 = Cfg::base(Kind::Wtlfu, &[self.0.window_cache_cap() + 1, main.protected_cap() + 1, main.probationary_cap() + 2], 8);
+                cfg2.samples = 7;
+                match Self::build(&cfg2) {
+                    Ok(mut dst) => {
+                        let mut o = Vec::new();
+                        dst.apply(Op::Put(7, 0), &mut o);
+                        dst.apply(Op::Get(6), &mut o);
+                        dst.apply(Op::Put(5, 0), &mut o);
+                        dst.0.clone_from(&self.0);
+                        *self = dst;
+                        Ret::Unit
+                    }
+                    Err(_) => Ret::NotApplicable,
+                }
             }
             _ => Ret::NotApplicable,
         }
